@@ -85,7 +85,7 @@ def dstep (d : DSt) (line : String) : DSt × String :=
   let g (k : String) : String := (kv ws k).getD ""
   match ws with
   | "cfg" :: _ =>
-    ({ d with cfg := ⟨g "verifyOwnParts" != "0", g "guardNilLastCommit" != "0"⟩,
+    ({ d with cfg := ⟨g "verifyOwnParts" != "0", g "guardNilLastCommit" != "0", g "proposalKeepsParts" != "0"⟩,
               l := { d.l with tornOk := (g "walTornOk" != "0"), keepsProposer := (g "stateKeepsProposer" != "0"),
                               rotationOk := (g "walRotationOk" != "0"),
                               startMarkerOk := (g "walStartMarkerOk" != "0") } }, "ok")
